@@ -3,6 +3,7 @@ package main
 import (
 	"fmt"
 	"os"
+	"strings"
 	"time"
 
 	rt "verif.local/rt"
@@ -260,7 +261,30 @@ func genC11(seed uint64, withSpec bool) *Scenario {
 		}
 	}
 	// the victim
+	llVictim := !withSpec && r.Chance(120)
+	if llVictim {
+		// a long-lived (non-recycling) validator is the victim and goes on being used afterwards
+		if r.Chance(700) {
+			vs := v.schemas[len(v.schemas)-1-r.Intn(nfmt)]
+			sc.LL = []*LLValidator{{Kind: "schema", Schema: vs.text, Faulty: true}}
+			add(Op{Kind: KLLSchema, LL: 0, Data: pick(r, vs.instances), OrderSeed: orderSeedFor(r), Fault: &Fault{Kind: "checker-panic"}}, "victim")
+			for i := 0; i < r.Range(1, 4); i++ {
+				add(Op{Kind: KLLSchema, LL: 0, Data: pick(r, vs.instances), OrderSeed: orderSeedFor(r)}, "suffix")
+			}
+		} else {
+			p, tv := formatParam(g)
+			sc.LL = []*LLValidator{{Kind: "param", Schema: js(p), Faulty: true}}
+			add(Op{Kind: KLLParam, LL: 0, TVal: tv, OrderSeed: orderSeedFor(r), Fault: &Fault{Kind: "checker-panic"}}, "victim")
+			for i := 0; i < r.Range(1, 3); i++ {
+				_, tv2 := formatParam(g)
+				if tv2.T == tv.T {
+					add(Op{Kind: KLLParam, LL: 0, TVal: tv2, OrderSeed: orderSeedFor(r)}, "suffix")
+				}
+			}
+		}
+	}
 	switch x := r.Intn(100); {
+	case llVictim:
 	case withSpec:
 		op := specOp(r)
 		op.Kind = KSpec
@@ -268,7 +292,7 @@ func genC11(seed uint64, withSpec bool) *Scenario {
 		add(op, "victim")
 	case x < 50:
 		m := formatSchema(g, r.Range(1, 3))
-		op := Op{Kind: pick(r, []string{KAgainst, KAgainst, KSchemaRec}), Schema: js(m), Data: js(formatInstance(g, m, 0)), OrderSeed: orderSeedFor(r)}
+		op := Op{Kind: pick(r, []string{KAgainst, KAgainst, KSchemaRec, KSchemaNR}), Schema: js(m), Data: js(formatInstance(g, m, 0)), OrderSeed: orderSeedFor(r)}
 		if r.Chance(500) {
 			// a shape of the vocabulary: the suffix validates the very same schema again, with its other instances
 			vs := v.schemas[len(v.schemas)-1-r.Intn(nfmt)]
@@ -295,6 +319,12 @@ func genC11(seed uint64, withSpec bool) *Scenario {
 		m, inst := brokenRefSchema(g)
 		op := Op{Kind: pick(r, []string{KAgainst, KSchemaRec}), Schema: js(m), Data: js(inst), OrderSeed: orderSeedFor(r), Fault: &Fault{Kind: "invalid-schema"}}
 		add(op, "victim")
+	}
+	if !withSpec && r.Chance(150) {
+		// a second aborted validation later in the history (its injection point is drawn, not enumerated)
+		m := formatSchema(g, r.Range(1, 2))
+		add(Op{Kind: pick(r, []string{KAgainst, KSchemaRec, KSchemaNR}), Schema: js(m), Data: js(formatInstance(g, m, 0)), OrderSeed: orderSeedFor(r),
+			Fault: &Fault{Kind: "checker-panic", K: r.Range(1, 5)}}, "victim2")
 	}
 	ns := pick(r, []int{1, 2, 3, 4, 6, 8, 12})
 	if deep() {
@@ -362,6 +392,18 @@ func runC11(sc *Scenario, keepLog bool) *RunReport {
 	// dry run of the victim alone, counting registry invocations
 	victim := sc.Tasks[0][vi]
 	victim.Fault = &Fault{Kind: "checker-count"}
+	if strings.HasPrefix(victim.Kind, "ll_") && victim.LL < len(sc.LL) {
+		// a call of a long-lived validator is counted on a freshly built validator of the same definition
+		ll := sc.LL[victim.LL]
+		switch victim.Kind {
+		case KLLSchema:
+			victim.Kind, victim.Schema, victim.Path = KSchemaNR, ll.Schema, ll.Path
+		case KLLParam:
+			victim.Kind, victim.Schema, victim.Recycle = KParam, ll.Schema, false
+		case KLLHeader:
+			victim.Kind, victim.Schema, victim.Path, victim.Recycle = KHeader, ll.Schema, ll.Path, false
+		}
+	}
 	env := &Env{}
 	out := env.Exec(&victim, &rt.OpCtx{UID: victim.UID, Kind: kindNums[victim.Kind], OrderSeed: victim.OrderSeed, Oracle: true})
 	n := 0
